@@ -21,9 +21,9 @@ META["C16"] = {"text": _T % " and every schedule of the context-combinator harne
 META["C17"] = {"text": _T % " and every schedule of two holders with the real wait()/do() goroutines" + _I, "note": "Two holders (T=26); WaitGroup/Mutex/channel models trusted."}
 META["C18"] = {"text": _T % "", "note": "math/rand.Int63n is a nondeterministic stub (any r in [0,n)); <= 4 calls per run; multiplication r*rate is compared syntactically, never solved; native replay is not available for harnesses using the rand observation intrinsics."}
 META["C20"] = {"text": _T % " and every schedule of producer, receiver and canceller" + _I, "note": "count 2 (quick) / 3 (thorough); fairness assumption: at most 2 failed non-blocking sends; timer/ticker may fire at any moment."}
+META["C11"] = {"text": "Bounded symbolic verification of a sufficient lock-set condition: every method of the lock-guarded types is executed symbolically from an arbitrary valid state and z3 decides, for every path, that each access to a guarded field (or the map/array behind it) happens with the guarding lock held in the required mode.", "note": "Guard table (engine/guards.go) is part of the claim; not a happens-before analysis; races through user callbacks or inside the standard library are outside. One genuine finding (ensure() reads Buffer.cleaner unlocked, racing SetCleanerConfig) is listed in known_findings.json.", "technique": "symbolic execution of go/ssa with ghost locksets; z3 decides each lock-discipline obligation"}
 NOT_APPLICABLE = {
     "C04": "check under construction: the cleaner-protocol interleaving harness has not yet run clean within the budget",
-    "C11": "check under construction: guard-table (lock-discipline) obligations not yet registered",
     "C15": "check under construction: reflect.Select stub not yet built",
     "C19": "behaviour lives in package reflect (MakeFunc/Call/Set/Append), which cannot be encoded within reach; contract stubs not built",
 }
